@@ -817,6 +817,29 @@ fn check_reset_copy<S: Sc>(timeout: u64, prefix: &[Op], suffix: &[Op]) -> Result
     }
     let fresh_now = Run::<S> { sc: S::make(timeout), now: a.now };
     let differs = !a.eq_state(&fresh_now);
+    // (0) every way of copying gives an equal scanner: Copy, Clone::clone, Clone::clone_from into a
+    //     scanner that already has progress of its own
+    {
+        S::set_clock_(a.now);
+        let by_clone = Run::<S> { sc: api(|| a.sc.clone()), now: a.now };
+        ensure!(by_clone.eq_state(&a), format!("{}/clone_not_equal_to_original", S::NAME), "clone(): {:?}\noriginal: {:?}", by_clone.sc, a.sc);
+        let mut target = Run::<S>::new(timeout);
+        target.now = a.now;
+        for op in suffix.iter().take(12) {
+            target.step(op);
+        }
+        target.now = a.now;
+        S::set_clock_(a.now);
+        api(|| target.sc.clone_from(&a.sc));
+        ensure!(target.eq_state(&a), format!("{}/clone_from_not_equal_to_original", S::NAME), "clone_from(): {:?}\noriginal: {:?}", target.sc, a.sc);
+        // and they evolve like the original
+        let (mut o, mut c1, mut c2) = (a, by_clone, target);
+        for (k, op) in suffix.iter().enumerate() {
+            let (r0, r1, r2) = (o.step(op), c1.step(op), c2.step(op));
+            ensure!(r0 == r1, format!("{}/clone_evolves_differently", S::NAME), "suffix op #{} {:?}: original {:?}, clone() {:?}", k, op, r0, r1);
+            ensure!(r0 == r2, format!("{}/clone_from_evolves_differently", S::NAME), "suffix op #{} {:?}: original {:?}, clone_from() {:?}", k, op, r0, r2);
+        }
+    }
     // (1) copy: evolves identically and independently
     let snapshot = a;
     let mut copy = a;
